@@ -45,7 +45,8 @@ func listCases(id string) []stCase {
 				if err != nil {
 					continue
 				}
-				if strings.Contains(string(meta), "\""+id+"\"") && !strings.Contains(string(meta), "\"detected\": false") {
+				// "property" names the check that is expected to fire ("breaks" may name another property)
+				if strings.Contains(string(meta), "\"property\": \""+id+"\"") && !strings.Contains(string(meta), "\"detected\": false") {
 					files = append(files, m)
 				}
 			}
